@@ -48,6 +48,15 @@ def models(tier):
             if plan == "inprogress":
                 alpha += [("resolve", 0, True), ("resolve", 0, False)]
             out.append(monitors.ScenarioModel(f"outbound-{plan}-peer{peer_i}", ob, alpha, MONS, max_socks=1, start_plan=[plan]))
+    # three peers serve one application: two are ready (and have some traffic behind them), the third has been dialled and its
+    # CEA is outstanding; requests sent by the application must never leave on the third connection before its CEA
+    three = copy.deepcopy(BASE)
+    three["peers"].append({"name": "peer3.example.org", "ips": ["10.1.0.3"], "persistent": True, "reconnect_wait": 30, "cea_timeout": 600})
+    three["apps"][0]["peers"] = [0, 1, 2]
+    out.append(monitors.ScenarioModel("two-ready-peers-and-one-awaiting-CEA", three,
+                                      [("send", 0, "own"), ("m", 0, "cea_ok"), ("m", 0, "cea_5xxx"), ("m", 1, "dwr"), ("m", 2, "req"), ("tick", 1), ("eof", 1)],
+                                      MONS, max_socks=3, start_plan=["ok"],
+                                      prelude=[("accept",), ("m", 1, "cer_p0"), ("accept",), ("m", 2, "cer_p1"), ("m", 1, "dwr"), ("m", 2, "dwr")]))
     # a second deterministic scheduling policy (the I/O thread runs only when nothing else can)
     if True:
         out = monitors.with_io_last(out)
